@@ -61,7 +61,20 @@ def solve_with(pf, spy, phi, terms, default_path=False):
     finally:
         ps.spsolve = spy._orig
     if len(spy.calls) == n0:
-        raise HookNotReached('solvePDE without an external solver did not call pyfvtool.pdesolver.spsolve')
+        # the default branch did not go through the name we replaced (another driver, a factorisation kept between calls, ...):
+        # observe it from outside instead. The system solvePDE assembles depends on the term list and on the variable's boundary
+        # conditions only, so a copy of the variable solved through the documented externalsolver= boundary records the same
+        # (M, b); the answer of the default branch is what it left in the variable. Only if that fails too is the run inconclusive.
+        try:
+            twin = phi.copy()
+            pf.solvePDE(twin, terms, externalsolver=spy)
+        except Exception:
+            pass
+        if len(spy.calls) == n0:
+            raise HookNotReached('solvePDE without an external solver did not call pyfvtool.pdesolver.spsolve')
+        Mc, bc, _x = spy.calls[-1]
+        spy.calls[-1] = (Mc, bc, np.array(np.asarray(phi._value, dtype=float).ravel(), copy=True))
+        spy.observed_from_outside = getattr(spy, 'observed_from_outside', 0) + 1
     return ret
 
 
